@@ -1015,8 +1015,11 @@ def render_sersic_2d(
         * bn ** (2 * n)
         / (jnp.exp(bn + jax.scipy.special.gammaln(2 * n)) * r_eff**2 * jnp.pi * 2 * n)
     )
-    z = jnp.sqrt((x_maj / a) ** 2 + (x_min / b) ** 2)
-    out = amplitude * jnp.exp(-bn * (z ** (1 / n) - 1)) / (1.0 - ellip)
+    zsq = (x_maj / a) ** 2 + (x_min / b) ** 2
+    at_centre = zsq == 0
+    z = jnp.sqrt(jnp.where(at_centre, 1.0, zsq))
+    z_pow = jnp.where(at_centre, 0.0, z ** (1 / n))
+    out = amplitude * jnp.exp(-bn * (z_pow - 1)) / (1.0 - ellip)
     return out
 
 
